@@ -162,25 +162,39 @@ def boxNew (h : Heap) (k : Kind) : Heap × Nat := h.alloc k (sz k)
 /-- `drop(Box::from_raw(p))`. -/
 def boxDrop (h : Heap) (k : Kind) (id : Nat) : Heap := h.dealloc id (sz k)
 
-/-- one node of a header list the library hands out: (node, (name, len), (value, len)). -/
-abbrev HNode := Nat × (Nat × Nat) × (Nat × Nat)
+/-- one node of a header list the library hands out: (node, name, value); a string is `(allocation, length)` or
+`none` = a NULL pointer (`string_to_c_char` returns NULL when the Rust string contains a NUL byte). -/
+abbrev HNode := Nat × Option (Nat × Nat) × Option (Nat × Nat)
 
-/-- `http_headers_to_header_map`: per header two C strings and a boxed node; the list comes out reversed. -/
-def headerList (h : Heap) : List (Nat × Nat) → List HNode → Heap × List HNode
+/-- `string_to_c_char(s)`: `none` (the string has an interior NUL) ⇒ NULL, nothing allocated. -/
+def cstrOpt (h : Heap) : Option Nat → Heap × Option (Nat × Nat)
+  | none => (h, none)
+  | some len =>
+    let (h, id) := cstrNew h len
+    (h, some (id, len))
+
+/-- the caller frees a string of a node (NULL: nothing to free). -/
+def cstrOptFree (h : Heap) : Option (Nat × Nat) → Heap
+  | none => h
+  | some (id, len) => cstrFree h id len
+
+/-- `http_headers_to_header_map`: per header two C strings (each possibly NULL) and a boxed node; the list comes out
+reversed.  The argument gives, per header in Rust order, the lengths of name and value (`none` = contains NUL). -/
+def headerList (h : Heap) : List (Option Nat × Option Nat) → List HNode → Heap × List HNode
   | [], acc => (h, acc)
   | (nl, vl) :: rest, acc =>
-    let (h, n) := cstrNew h nl
-    let (h, v) := cstrNew h vl
+    let (h, n) := cstrOpt h nl
+    let (h, v) := cstrOpt h vl
     let (h, node) := boxNew sz h .hnode
-    headerList h rest ((node, (n, nl), (v, vl)) :: acc)
+    headerList h rest ((node, n, v) :: acc)
 
-/-- the caller releases such a list: each node and its two strings. -/
+/-- the caller releases such a list: each node and its (non-NULL) strings. -/
 def headerListFree (h : Heap) : List HNode → Heap
   | [] => h
-  | (node, (n, nl), (v, vl)) :: rest =>
+  | (node, n, v) :: rest =>
     let h := (h.use node)
-    let h := cstrFree h n nl
-    let h := cstrFree h v vl
+    let h := cstrOptFree h n
+    let h := cstrOptFree h v
     headerListFree (boxDrop sz h .hnode node) rest
 
 /-! ### The caller's view -/
@@ -216,7 +230,8 @@ inductive Call where
   | strNew (len : Nat)                         -- `api_get_rule_api_version`
   | logJson (r : Nat) (a : Option Nat) (len : Nat)  -- `api_create_log_in_json(request r, …, action a or NULL, …)`
   | strFree (s : Nat)                          -- the caller frees a returned C string
-  | headers (a : Nat) (out : List (Nat × Nat)) -- `action_header_filter_filter(action a, caller's list, …)`
+  | headers (a : Nat) (out : List (Option Nat × Option Nat)) -- `action_header_filter_filter(action a, caller's list, …)`
+  | hmapNew (out : List (Option Nat × Option Nat)) -- `http_headers_to_header_map(headers)` called directly (pub fn)
   | hlistFree (s : Nat)                        -- the caller frees a returned header list
   | filterNew (a : Nat) (ok : Bool)            -- `action_body_filter_create`
   | filterFeed (f b : Nat) (out : List Nat)    -- `action_body_filter_filter(filter, buf)`: consumes buf (filter ≠ NULL); `out` = what the filter produced
@@ -265,6 +280,7 @@ def pre (st : State) : Call → Bool
   | .strFree s => st.holds s isCstr
   | .headers a _ => st.holds a (isObj .action)
   | .hlistFree s => st.holds s isHlist
+  | .hmapNew _ => true
   | .filterNew a _ => st.holds a (isObj .action)
   | .filterFeed f b _ => st.holds f (isObj .filter) && st.holds b isBuffer
   | .filterClose f _ => st.holds f (isObj .filter)
@@ -371,6 +387,9 @@ def step (st : State) : Call → State
         let (h, nodes) := headerList sz (st.heap.use id) out []
         { st with heap := h }.push (.hlist nodes)
     | _ => st.bad a
+  | .hmapNew out =>
+    let (h, nodes) := headerList sz st.heap out []
+    { st with heap := h }.push (.hlist nodes)
   | .hlistFree s =>
     match st.get s with
     | some (.hlist nodes) => ({ st with heap := headerListFree sz st.heap nodes }).release s
@@ -448,10 +467,13 @@ instance (calls : List Call) : Decidable (FollowsProtocol sz calls) :=
   inferInstanceAs (Decidable (Follows sz {} calls))
 
 /-- what a handle owns: `(allocation id, size it must be released with, kind)` -/
+def ownsStr : Option (Nat × Nat) → List (Nat × Nat × Kind)
+  | none => []
+  | some (id, len) => [(id, len + 1, Kind.cstr)]
+
 def ownsNodes : List HNode → List (Nat × Nat × Kind)
   | [] => []
-  | (node, (n, nl), (v, vl)) :: rest =>
-    [(n, nl + 1, Kind.cstr), (v, vl + 1, Kind.cstr), (node, sz .hnode, Kind.hnode)] ++ ownsNodes rest
+  | (node, n, v) :: rest => ownsStr n ++ ownsStr v ++ [(node, sz .hnode, Kind.hnode)] ++ ownsNodes rest
 
 def owns : Handle → List (Nat × Nat × Kind)
   | .buffer ⟨some id, bytes⟩ => if bytes = [] then [] else [(id, bytes.length, .bytes)]
